@@ -153,10 +153,10 @@ type SqlCase struct {
 }
 
 type SqlQ struct {
-	Text     string   `json:"text"`      // hex; query text
-	Tree     *PQ      `json:"tree"`      // the tree the text was rendered from (placeholders allowed)
-	ArgSets  [][]Arg  `json:"arg_sets"`  // executions (C11); empty: one execution without arguments
-	Prepared bool     `json:"prepared"`  // through Prepare + Stmt.Query, else direct DB.Query
+	Text     string  `json:"text"`     // hex; query text
+	Tree     *PQ     `json:"tree"`     // the tree the text was rendered from (placeholders allowed)
+	ArgSets  [][]Arg `json:"arg_sets"` // executions (C11); empty: one execution without arguments
+	Prepared bool    `json:"prepared"` // through Prepare + Stmt.Query, else direct DB.Query
 }
 
 type Arg struct {
@@ -187,8 +187,12 @@ func runSqlCase(o *Oracle, c *SqlCase, rep *Report, prop string) {
 	}
 	defer os.Remove(base)
 	o.Send("idx reset")
-	for _, r := range rows {
-		o.Send(rowLine(r))
+	{
+		var lines []string
+		for _, r := range rows {
+			lines = append(lines, rowLine(r))
+		}
+		o.SendMany(lines)
 	}
 	o.Send("idx build fast")
 	path := freshCopy(base)
@@ -380,6 +384,7 @@ func genSqlQuery(r *Rng, pool *leafPool, withPh bool) SqlQ {
 				return a
 			}
 			q.ArgSets = append(q.ArgSets, mk("x\x00", "y"), mk("x", "\x00y"), mk("caf\xe9", "\xff"), mk("caf\ufffd", "\ufffd"))
+			q.Prepared = true
 		}
 	}
 	q.Text = hx(renderPQ(r, q.Tree))
@@ -399,7 +404,7 @@ func runC12(rep *Report, r *Rng, tier string) {
 		pool := poolOf(d.Materialize())
 		c := &SqlCase{Data: d, DSNOpts: Pick(r, dsnOptionSets)}
 		for k := 0; k < 15; k++ {
-			q := genSqlQuery(r, pool, r.Chance(1, 3)) // a third of the queries with bound arguments (prepared or direct)
+			q := genSqlQuery(r, pool, r.Chance(1, 3))  // a third of the queries with bound arguments (prepared or direct)
 			if len(q.ArgSets) == 0 && r.Chance(1, 6) { // grouped query that matches nothing
 				q.Tree.T = &PT{Op: "A", Kids: []*PT{q.Tree.T, {Op: "E", C: hx(Pick(r, append(pool.cols, "a"))), V: hx("no-such-value")}}}
 				if len(pool.cols) > 0 && len(q.Tree.GB) == 0 {
@@ -727,8 +732,12 @@ func newDrvEnv(o *Oracle, r *Rng) *drvEnv {
 			infra("build: %v", err)
 		}
 		o.Send("idx reset")
-		for _, rw := range rows {
-			o.Send(rowLine(rw))
+		{
+			var lines []string
+			for _, rw := range rows {
+				lines = append(lines, rowLine(rw))
+			}
+			o.SendMany(lines)
 		}
 		o.Send("idx build fast")
 		env.files = append(env.files, p)
